@@ -6,6 +6,8 @@ import enum
 import functools
 import hashlib
 import json
+import sys
+import threading
 from fractions import Fraction
 
 import fw
@@ -80,7 +82,12 @@ LEVEL_NOTE = ('Trusted: Lean kernel; harness (progen.py generator/renderer/refer
               'Host-only inputs (one options dict re-used over a history of runs with failing runs in between, host subclass values, '
               'Python host callables, chunked source input) have no Lean counterpart: streams options-history and host-boundary check '
               'them with implementation-side oracles (same step on fresh options, plain-value run, independent reading Ref); the '
-              'model comparison covers the steps / plain variants the driver can express.')
+              'model comparison covers the steps / plain variants the driver can express. Stream sessions (several executions over the '
+              'globals a host keeps, each with its own options object, and host call-backs of script functions) is host-only as well '
+              '(function values do not cross the wire): oracle = the reading Ref of each execution. Stream scale runs size ladders '
+              '(call depth, iterations, chain length, label numbers, nesting) on a thread with a 512 MB stack - stack headroom is a '
+              'host configuration - against Ref, closed forms and, up to size 129, the Lean machine. Runs that END WITH A RUNTIME ERROR '
+              '(undefined function) are compared with the reading too: log and globals up to the failing call, arguments first.')
 
 
 def known_f7(w):
@@ -102,11 +109,88 @@ F7_PROGRAM = [
 ]
 
 
+class Gen2(progen.Gen):
+    """progen.Gen plus two classes of programs it never produces:
+    (empty blocks) an if / elif / else branch, a loop body or a function body WITHOUT statements - the tests of an empty branch are
+    still evaluated, once, in source order, and their effects (a logging / pushing call in the condition) stay observable;
+    (maybe-undefined calls) a call statement at global scope whose callee is defined only by a definition statement that may not
+    have run on the path taken (under a branch, in a loop body, further down) or by none at all, with EFFECTFUL argument
+    expressions: the run ends with 'Undefined function', after the arguments were evaluated left to right."""
+    EMPTY = 0.07
+    MAYBE = 0.02
+
+    def block(self, depth, in_loop, in_func, n=None):
+        if n is None and depth > 0 and self.rng.random() < self.EMPTY:
+            self.count('empty-block')
+            return []
+        return super().block(depth, in_loop, in_func, n)
+
+    def effectful(self):
+        r = self.rng.random()
+        if r < 0.5:
+            return self.traced(self.expr(2))
+        if r < 0.8:
+            return progen.call('arrayPush', progen.var(self.rng.choice(progen.VARS)), self.expr(2))
+        return self.expr(1)
+
+    def stmt(self, depth, in_loop, in_func):
+        if not in_func and self.rng.random() < self.MAYBE:
+            # global scope only: inside a function body a call of g / fe could close a call cycle (the recursion limit is not modelled)
+            self.count('maybe-undefined-call')
+            known = [f[0] for f in self.funcs if f[0] in ('g', 'fe')]
+            name = self.rng.choice(known) if known and self.rng.random() < 0.75 else self.rng.choice(['g', 'fe', 'hx'])
+            e = progen.call(name, *[self.effectful() for _ in range(self.rng.randint(1, 3))])
+            if self.rng.random() < 0.3:
+                # the undefined call nested in the arguments of another call: the innermost failure is the one reported
+                e = progen.call(self.rng.choice(['g', 'fe', 'systemLog']), self.effectful(), e)
+            s = {'k': 'expr', 'name': self.rng.choice([None, None] + progen.VARS[:2]), 'e': e}
+            if self.rng.random() < 0.5:
+                return {'k': 'if', 'c': self.cond(), 't': [s], 'else': None}
+            return s
+        return super().stmt(depth, in_loop, in_func)
+
+
+def _probe_prog():
+    """Corpus: every kind of EMPTY block behind a test with an effect (the test logs and pushes), and a call of a function that is
+    defined only under a branch not taken, with effectful arguments."""
+    probe = lambda tag, res: progen.call('probe', progen.string(tag) if isinstance(tag, str) else tag, res)      # noqa: E731
+    t, f = progen.var('true'), progen.var('false')
+    v = progen.var('v')
+    return [
+        {'k': 'expr', 'name': 'seen', 'e': progen.call('arrayNew')},
+        {'k': 'func', 'fid': 0, 'name': 'probe', 'args': ['tag', 'result'], 'lastArgArray': False, 'async': False, 'b': [
+            {'k': 'expr', 'name': None, 'e': progen.call('arrayPush', progen.var('seen'), progen.var('tag'))},
+            {'k': 'expr', 'name': None, 'e': progen.call('systemLog', progen.wf_binary('+', progen.string('probe '), progen.var('tag')))},
+            {'k': 'ret', 'e': progen.var('result')}]},
+        {'k': 'func', 'fid': 0, 'name': 'nothing', 'args': ['p'], 'lastArgArray': False, 'async': False, 'b': []},
+        {'k': 'if', 'c': probe('a', t), 't': [], 'else': None},
+        {'k': 'if', 'c': probe('b', f), 't': [], 'else': None},
+        {'k': 'if', 'c': probe('c', f), 't': [], 'else': {'k': 'elif', 'c': probe('d', t), 't': [], 'else': None}},
+        {'k': 'if', 'c': probe('e', f), 't': [{'k': 'expr', 'name': 'x', 'e': progen.num(1)}],
+         'else': {'k': 'elif', 'c': probe('f', f), 't': [], 'else': {'k': 'elif', 'c': probe('g', f), 't': [], 'else': None}}},
+        {'k': 'if', 'c': probe('h', t), 't': [], 'else': {'k': 'else', 'b': []}},
+        {'k': 'if', 'c': probe('i', f), 't': [], 'else': {'k': 'else', 'b': []}},
+        {'k': 'for', 'value': 'v', 'index': None, 'vals': progen.call('arrayNew', progen.num(1), progen.num(2), progen.num(3)), 'b': [
+            {'k': 'if', 'c': probe(v, progen.wf_binary('==', v, progen.num(2))), 't': [], 'else': None}]},
+        {'k': 'for', 'value': 'v', 'index': 'i', 'vals': probe('vals', progen.call('arrayNew', progen.num(7), progen.num(8))), 'b': []},
+        {'k': 'while', 'c': probe('w', f), 'b': []},
+        {'k': 'expr', 'name': 'r', 'e': progen.call('nothing', probe('arg', progen.num(5)))},
+        {'k': 'if', 'c': progen.wf_binary('==', progen.var('mode'), progen.string('full')), 't': [
+            {'k': 'func', 'fid': 0, 'name': 'report', 'args': ['p', 'q'], 'lastArgArray': False, 'async': False, 'b': [
+                {'k': 'ret', 'e': progen.num(1)}]}], 'else': None},
+        {'k': 'expr', 'name': 'r', 'e': progen.call('report', probe('first', progen.num(1)), probe('second', progen.num(2)))},
+        {'k': 'ret', 'e': progen.var('seen')},
+    ]
+
+
 def gen_cases(ctx, n, stream):
     rng = ctx.rng(stream)
     yield progen.assign_fids([dict(s) for s in F7_PROGRAM]), {}, {'while': 1, 'continue': 1, 'if': 1, 'corpus-F7': 1}
+    for g in ({}, {'mode': 'full'}):
+        yield progen.assign_fids(_probe_prog()), g, {'if': 6, 'elif': 3, 'else': 2, 'for': 2, 'while': 1, 'empty-block': 14,
+                                                     'maybe-undefined-call': 1, 'corpus-empty': 1}
     for i in range(n):
-        gen = progen.Gen(rng, max_depth=rng.choice([2, 3, 4, 5]))
+        gen = Gen2(rng, max_depth=rng.choice([2, 3, 4, 5]))
         prog = gen.program()
         yield prog, keyword_globals(progen.random_globals(rng), rng), gen.stats
 
@@ -126,19 +210,16 @@ def keyword_globals(g, rng, p=0.15):
 def streams(ctx):
     parser = fw.impl()['parser']
     n = ctx.scale(400, 12000)
-    cases = list(gen_cases(ctx, n, 'programs'))
+    cases, models = parsed_cases(ctx, parser, list(gen_cases(ctx, n, 'programs')))
 
     # --- stream lower: text -> statement list (implementation) vs recursive lowering (spec) vs line-at-a-time mirror
     st = ctx.stream('lower', 'grammar-directed structured programs (depth<=5, <=3 functions + prelude): parse_script(text) vs Lean '
                              'lowerProgram (spec) and parseLines∘render (mirror); oracle: parse_script of the same lines handed over as an iterable of '
                              'chunks with a start line number <= 0 or > 1 returns the same model; non-trivial = contains a loop or an if chain')
     resps = ctx.driver.batch([{'op': 'lower', 'prog': prog} for prog, _, _ in cases])
-    models = []
     crng = ctx.rng('chunks')
-    for (prog, _, stats), resp in zip(cases, resps):
+    for (prog, _, stats), resp, model in zip(cases, resps, models):
         text = '\n'.join(progen.render(prog))
-        model = parser.parse_script(text)
-        models.append(model)
         impl = progen.canon_script(model, with_fid=False)
         st.case(text, nontrivial=any(k in stats for k in ('if', 'while', 'for')), tags=sorted(stats))
         ctx.compare('lower', text, impl, progen.round_script_numbers(resp.get('spec')))
@@ -162,8 +243,7 @@ def streams(ctx):
     stream_print_parse(ctx, parser)
 
     # --- stream calls: call-heavy programs (per-call state: rest parameters, omitted arguments, in-place mutation, recursion)
-    call_cases = list(gen_call_cases(ctx, ctx.scale(250, 2500), 'calls'))
-    call_models = [parser.parse_script('\n'.join(progen.render(prog))) for prog, _, _ in call_cases]
+    call_cases, call_models = parsed_cases(ctx, parser, list(gen_call_cases(ctx, ctx.scale(250, 2500), 'calls')))
     call_impls = exec_stream(ctx, 'calls', call_cases, call_models,
                              'call-heavy structured programs (CallGen: functions with rest parameters / omitted and surplus arguments whose '
                              'bodies mutate their parameters in place, return them, recurse to a bounded depth, are re-defined, are defined '
@@ -175,6 +255,29 @@ def streams(ctx):
     stream_options_history(ctx, parser, cases, call_cases)
     stream_host_boundary(ctx, parser, cases, impls, call_cases, call_impls)
     del call_models
+    stream_sessions(ctx, parser, cases, call_cases)
+    stream_scale(ctx, parser)
+
+
+def parse_generated(ctx, parser, text, g=None):
+    """Every generated program is a well-formed structured program: parse_script must accept it.  -> model, or None after reporting"""
+    try:
+        return parser.parse_script(text)
+    except Exception as exc:  # pylint: disable=broad-except
+        ctx.witness('generated-program-parses', {'text': text, 'globals': g or {}}, 'a model', f'{type(exc).__name__}: {exc}'[:400],
+                    explained_by_f7=False)
+        return None
+
+
+def parsed_cases(ctx, parser, cases):
+    """-> (the cases whose source text parses, their models); the others are reported (generated-program-parses)"""
+    keep, models = [], []
+    for case in cases:
+        model = parse_generated(ctx, parser, '\n'.join(progen.render(case[0])), case[1])
+        if model is not None:
+            keep.append(case)
+            models.append(model)
+    return keep, models
 
 
 def chunk_spelling(text, rng):
@@ -265,7 +368,20 @@ def exec_stream(ctx, name, cases, models, rule, nontrivial, own_ref=False):
             if needless_budget_error(impl, ref, 400):
                 ctx.witness('needless-budget-error', _w_input(text, g, prog), _no_steps(ref), progen.strip_hidden(impl),
                             explained_by_f7=False)
+        elif 'error' in impl and 'hostexc' not in impl and not impl['error'].startswith(('Exceeded maximum', 'ParserError')):
+            # a run that ENDS WITH A RUNTIME ERROR (undefined function): no return value, but the log and the globals left behind
+            # are those of the structured reading up to the failing call - its arguments evaluated first, left to right (Ref has its
+            # own call dispatch; progen's reading hands whole expressions to the implementation and would move with it)
+            failing_run_oracle(ctx, text, g, prog, impl)
     return impls
+
+
+def failing_run_oracle(ctx, text, g, prog, impl):
+    got = progen.strip_hidden(impl)
+    ref = run_ref(prog, g, budget=3000)
+    if ref is not None and ref != got:
+        ref7 = run_ref(prog, g, budget=3000, f7_quirk=True) if progen.has_while_continue(prog) else None
+        ctx.witness('structured-reading-failing-run', _w_input(text, g, prog), ref, got, explained_by_f7=(ref7 is not None and ref7 == got))
 
 
 def stream_history(ctx, parser, cases, impls):
@@ -518,7 +634,7 @@ def stream_print_parse(ctx, parser):
                     'Python; non-trivial = printable (C01.SourcePrintable) and contains a block statement')
     progs = [progen.assign_fids(copy.deepcopy(p)) for p in PRINT_CORPUS]
     for _ in range(ctx.scale(300, 4000)):
-        gen = progen.Gen(rng, max_depth=rng.choice([2, 3, 4, 5]), allow_raw=True)
+        gen = Gen2(rng, max_depth=rng.choice([2, 3, 4, 5]), allow_raw=True)
         progs.append(progen.assign_fids(decorate(gen.program(), rng)))
     reqs = []
     for prog in progs:
@@ -1047,26 +1163,9 @@ def history_host():
 
 def run_on(options, log, model):
     """One execute_script on host-owned options -> outcome in the shape of progen.run_impl."""
-    mods = fw.impl()
-    runtime, library, parser = mods['runtime'], mods['library'], mods['parser']
+    runtime = fw.impl()['runtime']
     del log[:]
-    out = {}
-    try:
-        out['result'] = progen.value_to_wire(runtime.execute_script(model, options), library.SCRIPT_FUNCTIONS)
-    except runtime.BareScriptRuntimeError as exc:
-        out['error'] = str(exc)
-    except parser.BareScriptParserError as exc:
-        out['error'] = 'ParserError ' + str(exc).split('\n', 1)[0]
-    except RecursionError:
-        out['hostexc'] = 'RecursionError'
-    except Exception as exc:  # pylint: disable=broad-except
-        out['hostexc'] = type(exc).__name__ + ': ' + str(exc)[:200]
-    out['log'] = list(log)
-    g = options.get('globals') or {}
-    out['globals'] = sorted([[k, progen.value_to_wire(v, library.SCRIPT_FUNCTIONS)] for k, v in g.items()
-                             if not (k in library.SCRIPT_FUNCTIONS and v is library.SCRIPT_FUNCTIONS[k])], key=lambda kv: kv[0])
-    out['count'] = options.get('statementCount')
-    return progen.canon_neg_zero(out)
+    return _outcome(options, log, lambda: runtime.execute_script(model, options))
 
 
 def gen_fault(rng):
@@ -1550,7 +1649,9 @@ def stream_host_boundary(ctx, parser, cases, impls, call_cases, call_impls):
     both = [(c, i) for c, i in zip(cases, impls)] + [(c, i) for c, i in zip(call_cases, call_impls)]
     for (prog, g, stats), plain in rng.sample(both, min(len(both), ctx.scale(250, 2500))):
         text = '\n'.join(progen.render(prog))
-        model = parser.parse_script(text)
+        model = parse_generated(ctx, parser, text, g)
+        if model is None:
+            continue
         kinds = sorted({type(v).__name__ for v in g.values()})
         if g:
             seed = rng.randrange(10 ** 6)
@@ -1572,7 +1673,9 @@ def stream_host_boundary(ctx, parser, cases, impls, call_cases, call_impls):
         reqs.append({'op': 'execT', 'prog': prog, 'globals': wg, 'max': 400, 'fuel': 5000})
     for (prog, g), resp in zip(truth, ctx.driver.batch(reqs)):
         text = '\n'.join(progen.render(prog))
-        model = parser.parse_script(text)
+        model = parse_generated(ctx, parser, text, g)
+        if model is None:
+            continue
         plain = progen.run_impl(model, g, max_statements=400)
         seed = rng.randrange(10 ** 6)
         got = progen.run_impl(model, wrap_globals(g, seed), max_statements=400)
@@ -1589,7 +1692,9 @@ def stream_host_boundary(ctx, parser, cases, impls, call_cases, call_impls):
         prog = gen.program()
         g = progen.random_globals(rng)
         text = '\n'.join(progen.render(prog))
-        model = parser.parse_script(text)
+        model = parse_generated(ctx, parser, text, g)
+        if model is None:
+            continue
         seed = rng.randrange(10 ** 6) if rng.random() < 0.3 else None
         got = run_with_host(model, g, seed)
         st.case([text, g, seed], nontrivial='error' not in got and gen.stats.get('host-calls', 0) > 0, tags=['callables'] + sorted(gen.stats))
@@ -1604,6 +1709,462 @@ def stream_host_boundary(ctx, parser, cases, impls, call_cases, call_impls):
                         progen.strip_hidden(got), explained_by_f7=False)
 
 
+# ---------------------------------------------------------------------------------------------------------------------
+# sessions: SEVERAL executions over the globals one host keeps, every execution with its OWN options object (own logFn, own
+# budget, statementCount 0): notebook cells / pages re-run against shared globals, event handlers calling back a script
+# function after the run that defined it.  What an execution logs is the output of THAT execution, whichever execution
+# defined the functions it calls; a function body runs under the options (log, budget, globals) of the calling execution.
+# ---------------------------------------------------------------------------------------------------------------------
+
+def _outcome(options, log, thunk):
+    """The canonical outcome (shape of progen.run_impl) of one implementation entry `thunk()` made on host-owned options."""
+    mods = fw.impl()
+    runtime, library, parser = mods['runtime'], mods['library'], mods['parser']
+    out = {}
+    try:
+        out['result'] = progen.value_to_wire(thunk(), library.SCRIPT_FUNCTIONS)
+    except runtime.BareScriptRuntimeError as exc:
+        out['error'] = str(exc)
+    except parser.BareScriptParserError as exc:
+        out['error'] = 'ParserError ' + str(exc).split('\n', 1)[0]
+    except RecursionError:
+        out['hostexc'] = 'RecursionError'
+    except Exception as exc:  # pylint: disable=broad-except
+        out['hostexc'] = type(exc).__name__ + ': ' + str(exc)[:200]
+    out['log'] = list(log)
+    g = options.get('globals') or {}
+    out['globals'] = sorted([[k, progen.value_to_wire(v, library.SCRIPT_FUNCTIONS)] for k, v in g.items()
+                             if not (k in library.SCRIPT_FUNCTIONS and v is library.SCRIPT_FUNCTIONS[k])], key=lambda kv: kv[0])
+    out['count'] = options.get('statementCount')
+    return progen.canon_neg_zero(out)
+
+
+CALLBACK_ARGS = [[], [1.0], [2.0, [1.0, 2.0]], [0.0, 's', None], [3.0, 1.0, 2.0, 3.0]]
+
+
+def run_session(session, parser):
+    """The implementation side of a session {'globals', 'family', 'steps': [{'kind': 'script', 'text', 'limit'} | {'kind': 'call',
+    'name', 'args', 'limit'}]}: family 'shared' = one globals dict handed to every execution, family 'copy' = every later execution
+    gets a NEW dict with the same bindings (a host that snapshots its globals).  -> outcome per step"""
+    runtime = fw.impl()['runtime']
+    g = copy.deepcopy(session['globals'])
+    outs = []
+    for ix, step in enumerate(session['steps']):
+        log = []
+        if session['family'] == 'copy' and ix:
+            g = dict(g)
+        options = {'globals': g, 'maxStatements': step['limit'], 'logFn': log.append, 'debug': False, 'statementCount': 0}
+        if step['kind'] == 'script':
+            # a cut of a well-formed program at top-level statements is a well-formed program: a parse error is an outcome to compare
+            outs.append(_outcome(options, log, lambda: runtime.execute_script(parser.parse_script(step['text']), options)))     # pylint: disable=cell-var-from-loop
+        else:
+            fn = g.get(step['name'])
+            args = copy.deepcopy(step['args'])
+            outs.append(_outcome(options, log, lambda: fn(args, options) if callable(fn) else 'not callable'))   # pylint: disable=cell-var-from-loop
+    return outs
+
+
+def ref_session(session, progs, budget=4000):
+    """The structured reading of the same session: ONE reader (Ref, own call dispatch) whose current options are those of the
+    execution in progress.  -> outcome per step; None from the step on that the reading could not finish within `budget`"""
+    mods = fw.impl()
+    library = mods['library']
+    g = copy.deepcopy(session['globals'])
+    for name, fn in library.SCRIPT_FUNCTIONS.items():
+        g.setdefault(name, fn)
+    interp = Ref(None, budget)
+    outs = []
+    for ix, step in enumerate(session['steps']):
+        log = []
+        if session['family'] == 'copy' and ix:
+            g = dict(g)
+        interp.options = {'globals': g, 'maxStatements': 0, 'logFn': log.append, 'statementCount': 0}
+        interp.budget = budget
+        out = {}
+        try:
+            if step['kind'] == 'script':
+                value = interp.run(progs[ix])
+            else:
+                fn = g.get(step['name'])
+                value = fn(copy.deepcopy(step['args']), interp.options) if callable(fn) else 'not callable'
+            out['result'] = progen.ref_wire(value, library.SCRIPT_FUNCTIONS)
+        except (progen.RefBudget, RecursionError):
+            return outs + [None] * (len(session['steps']) - ix)
+        except mods['runtime'].BareScriptRuntimeError as exc:
+            out['error'] = str(exc)
+        out['log'] = list(log)
+        out['globals'] = sorted([[k, progen.ref_wire(v, library.SCRIPT_FUNCTIONS)] for k, v in g.items()
+                                 if not (k in library.SCRIPT_FUNCTIONS and v is library.SCRIPT_FUNCTIONS[k])], key=lambda kv: kv[0])
+        outs.append(progen.canon_neg_zero(out))
+    return outs
+
+
+def session_verdict(outs, refs):
+    """-> (index of the first step whose outcome is not the reading's, or None; number of steps compared)"""
+    for ix, (got, ref) in enumerate(zip(outs, refs)):
+        if ref is None or 'hostexc' in got or got.get('error', '').startswith('Exceeded maximum'):
+            return None, ix         # from here on the two sides no longer share a state (the reading has no statement budget)
+        if progen.strip_hidden(got) != ref:
+            return ix, ix
+    return None, len(outs)
+
+
+def _cut(prog, rng):
+    """Cut a program into 2-3 consecutive runs of whole top-level statements."""
+    n = len(prog)
+    cuts = sorted(rng.sample(range(1, n), min(n - 1, rng.choice([1, 1, 2]))))
+    return [prog[a:b] for a, b in zip([0] + cuts, cuts + [n])]
+
+
+def stream_sessions(ctx, parser, cases, call_cases):
+    rng = ctx.rng('sessions')
+    st = ctx.stream('sessions',
+                    'generated programs (Gen2, CallGen) cut into 2-3 scripts that are parsed and executed one after the other over the '
+                    'globals the host keeps, EVERY execution with its own options object (own logFn list, own maxStatements 400/1000, '
+                    'statementCount 0; family shared = one globals dict, family copy = a new dict with the same bindings per execution), '
+                    'followed by 0-2 call-backs: the host calls a script function left in the globals directly, with new options. Later '
+                    'executions call functions defined by earlier ones. Oracle: the structured reading (Ref) of each script / call-back '
+                    'started from the globals the previous execution left, with the log of THAT execution (a function body logs to, counts '
+                    'against and reads the globals of the execution that calls it); failing executions (undefined function) are compared '
+                    'too. Host-only: function values cannot cross the wire to the Lean driver, so no model comparison here - the single-run '
+                    'outcome of the same programs is tied to the model by streams exec / calls. non-trivial = a later execution or '
+                    'call-back runs (and completes) a function defined by an earlier execution')
+    pool = [(prog, g) for prog, g, _ in list(cases[1:]) + list(call_cases) if len(prog) >= 2 and not progen.has_while_continue(prog)]
+    found = 0
+    for _ in range(ctx.scale(400, 4000)):
+        if found >= 5:
+            break
+        prog, g = rng.choice(pool)
+        parts = _cut(prog, rng)
+        session = {'globals': g, 'family': rng.choice(['shared', 'shared', 'copy']),
+                   'steps': [{'kind': 'script', 'text': '\n'.join(progen.render(part)), 'limit': rng.choice([400, 400, 1000])} for part in parts]}
+        outs = run_session(session, parser)
+        funcs = [k for k, v in outs[-1]['globals'] if v == {'f': 'script'}]
+        for _ in range(rng.choice([0, 1, 2]) if funcs else 0):
+            session['steps'].append({'kind': 'call', 'name': rng.choice(funcs), 'args': rng.choice(CALLBACK_ARGS), 'limit': 400})
+        if len(session['steps']) > len(parts):
+            outs = run_session(session, parser)
+        refs = ref_session(session, parts)
+        bad, compared = session_verdict(outs, refs)
+        defined = set()
+        crosses = False
+        for ix, part in enumerate(parts[:compared]):
+            if ix and 'error' not in outs[ix] and _called_names(part) & defined:
+                crosses = True
+            defined |= {s['name'] for s in part if s['k'] == 'func'}
+        crosses = crosses or any('error' not in o for o in outs[len(parts):compared])
+        st.case([session['family'], [[s.get('text', s.get('name')), s.get('args')] for s in session['steps']], g], nontrivial=crosses,
+                tags=[session['family'], f'steps{len(session["steps"])}', f'compared{compared}'] + (['callback'] if len(session['steps']) > len(parts) else []))
+        if bad is not None:
+            found += 1
+            ctx.witness('session-reading', {'session': dict(session, steps=session['steps'][:bad + 1])}, refs[bad], progen.strip_hidden(outs[bad]),
+                        step=bad, explained_by_f7=False)
+
+
+# ---------------------------------------------------------------------------------------------------------------------
+# scale: the SIZE of a run as an axis of its own - how deep script calls nest at run time, how often a loop iterates, how long an
+# if chain is, how many constructs follow each other (label numbers), how deep blocks nest, how many functions a script defines.
+# The grammar-directed programs stay tiny in every one of these (recursion depth <= 4, arrays of <= 5 elements, <= 2 elif).
+# ---------------------------------------------------------------------------------------------------------------------
+
+SIZES = [0, 1, 2, 9, 10, 11, 16, 17, 64, 65, 100, 101, 128, 129, 256, 1000]
+CALL_DEPTH_MAX = 500    # CPython gives out at about 700 nested script calls whatever stack the host provides (C recursion limit)
+NEST_MAX = 256
+NEG1 = progen.group(progen.binop('-', progen.num(0), progen.num(1)))
+
+
+def _func(name, params, body):
+    return {'k': 'func', 'fid': 0, 'name': name, 'args': list(params), 'lastArgArray': False, 'async': False, 'b': body}
+
+
+def _ret(e=None):
+    return {'k': 'ret', 'e': e}
+
+
+def _while(c, body):
+    return {'k': 'while', 'c': c, 'b': body}
+
+
+def _for(value, index, vals, body):
+    return {'k': 'for', 'value': value, 'index': index, 'vals': vals, 'b': body}
+
+
+def _fill(name, n):
+    """name = [0, 1, ..., n-1], built by a while loop"""
+    return [_set(name, C('arrayNew')), _set('fi', N(0)),
+            _while(B('<', V('fi'), N(n)), [_do(C('arrayPush', V(name), V('fi'))), _set('fi', B('+', V('fi'), N(1)))])]
+
+
+def sc_rec_direct(n, rng):
+    return [_func('depth', ['m'], [_if(B('==', V('m'), N(0)), [_ret(N(0))]), _ret(B('+', N(1), C('depth', B('-', V('m'), N(1)))))]),
+            _set('d', C('depth', N(n))), _log(S('depth='), V('d')), _ret(V('d'))], {'n': [n, 1]}
+
+
+def sc_rec_array(n, rng):
+    return ([_func('sumFrom', ['values', 'ix'], [
+        _if(B('>=', V('ix'), C('arrayLength', V('values'))), [_ret(N(0))]),
+        _ret(B('+', C('arrayGet', V('values'), V('ix')), C('sumFrom', V('values'), B('+', V('ix'), N(1)))))])]
+            + _fill('xs', n) + [_set('total', C('sumFrom', V('xs'), N(0))), _log(S('sum='), V('total')), _ret(V('total'))]), {'n': [n * (n - 1) // 2, 1]}
+
+
+def sc_rec_while(n, rng):
+    k = rng.choice([7, 40])
+    return [_func('countDown', ['m', 'trace'], [
+        _while(B('>', V('m'), N(0)), [_if(B('==', B('%', V('m'), N(k)), N(0)), [_do(C('arrayPush', V('trace'), V('m')))]),
+                                      _ret(C('countDown', B('-', V('m'), N(1)), V('trace')))]),
+        _ret(V('trace'))]),
+            _set('trace', C('countDown', N(n), C('arrayNew'))), _log(S('trace='), C('arrayLength', V('trace'))), _ret(V('trace'))], None
+
+
+def sc_rec_mutual(n, rng):
+    return [_func('isEven', ['m'], [_if(B('==', V('m'), N(0)), [_ret(V('true'))]), _ret(C('isOdd', B('-', V('m'), N(1))))]),
+            _func('isOdd', ['m'], [_if(B('==', V('m'), N(0)), [_ret(V('false'))]), _ret(C('isEven', B('-', V('m'), N(1))))]),
+            _set('even', C('isEven', N(n))), _log(S('even='), V('even')), _ret(V('even'))], n % 2 == 0
+
+
+def sc_rec_for(n, rng):
+    """Re-entered from inside its own for loop: every activation's loop goes on (second element) when the inner one returns."""
+    return [_func('walk', ['m', 'acc'], [
+        _for('v', 'ix', C('arrayNew', V('m'), NEG1), [
+            _if(B('>', V('v'), N(0)), [_do(C('walk', B('-', V('v'), N(1)), V('acc')))],
+                [_do(C('arrayPush', V('acc'), B('+', B('*', V('m'), N(2)), V('ix'))))])]),
+        _ret(C('arrayLength', V('acc')))]),
+            _set('acc', C('arrayNew')), _set('count', C('walk', N(n), V('acc'))), _log(S('count='), V('count')),
+            _log(S('last='), C('arrayGet', V('acc'), B('-', V('count'), N(1)))), _ret(V('count'))], {'n': [n + 2, 1]}
+
+
+def sc_rec_args(n, rng):
+    """The recursive call sits in an argument of another call of the same function."""
+    return [_func('wrap', ['m', 'v'], [_if(B('==', V('m'), N(0)), [_ret(V('v'))]),
+                                       _ret(C('wrap', N(0), C('wrap', B('-', V('m'), N(1)), B('+', V('v'), N(1)))))]),
+            _set('w', C('wrap', N(n), N(0))), _log(S('wrap='), V('w')), _ret(V('w'))], {'n': [n, 1]}
+
+
+def sc_func_chain(n, rng):
+    """n functions, each calling the one defined before it: the number of definitions and the call depth grow together."""
+    prog = [_func('fn0', ['x'], [_ret(V('x'))])]
+    for i in range(1, n + 1):
+        prog.append(_func(f'fn{i}', ['x'], [_set('y', C(f'fn{i - 1}', B('+', V('x'), N(1)))), _ret(V('y'))]))
+    return prog + [_set('r', C(f'fn{n}', N(0))), _log(S('chain='), V('r')), _ret(V('r'))], {'n': [n, 1]}
+
+
+def sc_for(n, rng):
+    k = rng.choice([3, 4, 7])
+    return (_fill('xs', n) + [
+        _set('total', N(0)), _set('kept', N(0)),
+        _for('v', 'ix', V('xs'), [
+            _if(B('==', B('%', V('v'), N(k)), N(1)), [{'k': 'continue'}]),
+            _if(B('==', V('ix'), N(n - 1)), [_log(S('last '), V('v')), {'k': 'break'}]),
+            _set('total', B('+', V('total'), V('v'))), _set('kept', B('+', V('kept'), N(1)))]),
+        _log(S('total='), V('total'), S(' kept='), V('kept'), S(' ix='), V('ix')), _ret(V('total'))]), None
+
+
+def sc_while(n, rng):
+    return [_set('i', N(0)), _set('odd', N(0)), _set('even', N(0)),
+            _while(B('<', V('i'), N(n)), [
+                _set('i', B('+', V('i'), N(1))),
+                _if(B('==', B('%', V('i'), N(2)), N(1)), [_set('odd', B('+', V('odd'), N(1)))], [_set('even', B('+', V('even'), N(1)))]),
+                _if(B('==', B('%', V('i'), N(50)), N(0)), [_log(S('at '), V('i'))])]),
+            _log(S('odd='), V('odd'), S(' even='), V('even')), _ret(V('i'))], {'n': [n, 1]}
+
+
+def sc_while_break(n, rng):
+    return [_set('i', N(0)),
+            _while(V('true'), [_if(B('>=', V('i'), N(n)), [{'k': 'break'}]), _set('i', B('+', V('i'), N(1)))]),
+            _log(S('i='), V('i')), _ret(V('i'))], {'n': [n, 1]}
+
+
+def sc_nested_loops(n, rng):
+    return (_fill('xs', n) + [
+        _set('c', N(0)),
+        _for('p', None, V('xs'), [
+            _for('q', 'iq', C('arrayNew', N(1), N(2), N(3), N(4)), [
+                _if(B('==', V('q'), N(2)), [{'k': 'continue'}]),
+                _if(B('&&', B('==', V('q'), N(4)), B('==', B('%', V('p'), N(2)), N(0))), [{'k': 'break'}]),
+                _set('c', B('+', V('c'), N(1)))]),
+            _set('w', N(0)),
+            _while(B('<', V('w'), N(2)), [_set('w', B('+', V('w'), N(1))), _set('c', B('+', V('c'), N(1)))])]),
+        _log(S('c='), V('c')), _ret(V('c'))]), None
+
+
+def sc_elif_chain(n, rng):
+    """An if chain with n elif branches, every test with an effect: exactly the tests up to the first truthy one are evaluated."""
+    node = {'k': 'if', 'c': C('test', V('k'), N(0)), 't': [_set('r', S('b0'))], 'else': None}
+    chain = node
+    for i in range(1, n + 1):
+        chain['else'] = {'k': 'elif', 'c': C('test', V('k'), N(i)), 't': [_set('r', S(f'b{i}'))], 'else': None}
+        chain = chain['else']
+    if rng.random() < 0.5:
+        chain['else'] = {'k': 'else', 'b': [_set('r', S('none'))]}
+    picks = sorted({0, 1, n // 2, max(0, n - 1), n, n + 1})
+    return [_set('tests', C('arrayNew')),
+            _func('test', ['p', 'i'], [_do(C('arrayPush', V('tests'), V('i'))), _ret(B('==', V('p'), V('i')))]),
+            _func('pick', ['k'], [_set('r', S('unset')), node, _ret(V('r'))]),
+            _for('k', None, C('arrayNew', *[N(p) for p in picks]), [
+                _set('got', C('pick', V('k'))), _log(V('k'), S(' -> '), V('got'), S(' after '), C('arrayLength', V('tests')))]),
+            _ret(C('arrayLength', V('tests')))], None
+
+
+def sc_sequence(n, rng):
+    """n constructs one after the other: the label numbers run to n (Loop1 / Loop10 / Loop100 share prefixes)."""
+    prog = [_set('c', N(0)), _set('s', N(0)), _set('w', N(0))]
+    for i in range(n):
+        kind = i % 4
+        if kind == 0:
+            prog.append(_if(B('<', V('c'), N(i + 1)), [_set('c', B('+', V('c'), N(1)))], [_set('c', S('wrong'))]))
+        elif kind == 1:
+            prog.append(_for('v', None, C('arrayNew', N(i), N(1)), [_if(B('==', V('v'), N(1)), [{'k': 'continue'}]), _set('s', B('+', V('s'), V('v')))]))
+        elif kind == 2:
+            prog.append(_while(B('<', V('w'), N(i)), [_set('w', B('+', V('w'), N(2))), _if(B('>', V('w'), N(i + 5)), [{'k': 'break'}])]))
+        else:
+            prog.append(_func('last', [], [_for('u', None, C('arrayNew', N(i)), [_ret(V('u'))])]))
+    return prog + [_log(S('c='), V('c'), S(' s='), V('s'), S(' w='), V('w')), _ret(C('last') if n >= 4 else V('c'))], None
+
+
+def sc_nest(n, rng):
+    """Blocks nested n deep (if / for / while / else in turn); every level does something after its inner block has finished."""
+    inner = [_log(S('bottom '), V('c')), _set('c', B('+', V('c'), N(1)))]
+    for k in range(n, 0, -1):
+        after = _set('c', B('+', V('c'), N(k)))
+        kind = k % 4
+        if kind == 0:
+            inner = [_if(B('>=', V('c'), N(0)), inner + [after])]
+        elif kind == 1:
+            inner = [_for('v', None, C('arrayNew', N(k)), inner + [after, _if(B('<', V('v'), N(0)), [{'k': 'continue'}])])]
+        elif kind == 2:
+            inner = [_while(B('<', V('c'), N(10 ** 9)), inner + [after, {'k': 'break'}])]
+        else:
+            inner = [_if(B('<', V('c'), N(0)), [_set('c', S('wrong'))], inner + [after])]
+    return [_set('c', N(0))] + inner + [_log(S('c='), V('c')), _ret(V('c'))], {'n': [1 + n * (n + 1) // 2, 1]}
+
+
+# (name, builder, largest affordable size)
+SCALE_FAMILIES = [
+    ('rec-direct', sc_rec_direct, CALL_DEPTH_MAX), ('rec-array', sc_rec_array, CALL_DEPTH_MAX), ('rec-while', sc_rec_while, CALL_DEPTH_MAX),
+    ('rec-mutual', sc_rec_mutual, CALL_DEPTH_MAX), ('rec-for', sc_rec_for, CALL_DEPTH_MAX), ('rec-args', sc_rec_args, CALL_DEPTH_MAX),
+    ('func-chain', sc_func_chain, CALL_DEPTH_MAX),
+    ('for', sc_for, 1000), ('while', sc_while, 1000), ('while-break', sc_while_break, 1000), ('nested-loops', sc_nested_loops, 1000),
+    ('elif-chain', sc_elif_chain, 1000), ('sequence', sc_sequence, 1000), ('nest', sc_nest, NEST_MAX),
+]
+
+
+def big_stack(fn):
+    """Run fn() on a thread with a 512 MB stack and a recursion limit of 10**6: stack headroom is a configuration of the HOST (the
+    Python recursion limit is outside the model, DESIGN 6) - with enough of it the implementation and the reading must run every
+    size below; without it deep script recursion silently turns into null at about 200 nested calls (documented restriction)."""
+    box = {}
+
+    def target():
+        old = sys.getrecursionlimit()
+        sys.setrecursionlimit(10 ** 6)
+        try:
+            box['value'] = fn()
+        except BaseException as exc:  # pylint: disable=broad-except
+            box['exc'] = exc
+        finally:
+            sys.setrecursionlimit(old)
+
+    old_size = threading.stack_size(512 * 1024 * 1024)
+    try:
+        thread = threading.Thread(target=target)
+        thread.start()
+        thread.join()
+    finally:
+        threading.stack_size(old_size)
+    if 'exc' in box:
+        raise box['exc']
+    return box['value']
+
+
+def scale_limit(n):
+    return 200 * n + 2000
+
+
+def scale_sizes(ctx, rng, largest):
+    """The fixed geometric ladder (both sides of every power / round number) up to the family's largest affordable size, plus one
+    random size from every gap of the ladder; quick tier: only one of the sizes above 129."""
+    sizes = [n for n in SIZES if n <= largest] + ([largest] if largest not in SIZES else [])
+    sizes += [rng.randint(18, 63), rng.randint(130, 255)] + ([rng.randint(257, largest - 1)] if largest > 258 else [])
+    sizes = sorted(set(n for n in sizes if n <= largest))
+    if ctx.quick:
+        big = [n for n in sizes if n > 129]
+        keep = set(rng.sample(big, min(2, len(big))))
+        sizes = [n for n in sizes if n <= 129 or n in keep]
+    return sizes
+
+
+def stream_scale(ctx, parser):
+    rng = ctx.rng('scale')
+    st = ctx.stream('scale',
+                    'size ladders 0,1,2,9,10,11,16,17,64,65,100,101,128,129,256,(500|1000) + one random size per gap, for: run-time depth '
+                    'of nested script calls (direct, over an array, out of a while loop, mutual, out of a for loop that goes on afterwards, '
+                    'in an argument of its own call, through a chain of n distinct functions; up to 500 - CPython itself gives out near 700), '
+                    'iterations of for / while / while-true-break / nested loops with break and continue, an if chain of n elif branches '
+                    'with effectful tests, n constructs in sequence (label numbers to n), blocks nested n deep (to 256). Run on a thread '
+                    'with a 512 MB stack (stack headroom is a host configuration; the recursion limit is outside the model), '
+                    'maxStatements 200n+2000. Oracle: the structured reading Ref on the same thread, and the closed-form result where the '
+                    'family has one; sizes <= 129: also the Lean jump machine and ticked semantics. non-trivial = n >= 2 and the run completes')
+    cases = []
+    for name, _, largest in SCALE_FAMILIES:
+        for n in scale_sizes(ctx, rng, largest):
+            cases.append((name, n) + scale_case(name, n, ctx.seed))
+
+    def run_all():
+        rows = []
+        for name, n, prog, expect, text in cases:
+            try:
+                model = parser.parse_script(text)
+                impl = progen.run_impl(model, {}, max_statements=scale_limit(n))
+            except Exception as exc:  # pylint: disable=broad-except
+                model, impl = None, {'error': f'ParserError {type(exc).__name__}: {exc}'[:300], 'log': [], 'globals': []}
+            ref = run_ref(prog, {}, budget=400 * n + 4000)
+            rows.append((model, impl, ref))
+        return rows
+
+    rows = big_stack(run_all)
+    reqs, req_at = [], []
+    failed = set()
+    for (name, n, prog, expect, text), (model, impl, ref) in zip(cases, rows):
+        got = progen.strip_hidden(impl)
+        st.case([name, n], nontrivial=n >= 2 and 'error' not in impl and 'hostexc' not in impl, tags=[name, f'n{n}' if n in SIZES else 'n-random'])
+        # the witness names the program (family, size, seed: replay() rebuilds it); the text is shown when it is short
+        inp = {'family': name, 'n': n, 'seed': ctx.seed, 'max': scale_limit(n), 'text': text if len(text) <= 3000 else text[:1500] + ' ...'}
+        if name in failed:
+            pass        # one witness per family: its smallest failing size
+        elif ref is not None and ref != got:
+            failed.add(name)
+            ctx.witness('structured-reading-scale', inp, *_brief(ref, got), expected_digest=_digest(ref), explained_by_f7=False)
+        elif expect is not None and got.get('result') != expect:
+            failed.add(name)
+            ctx.witness('structured-reading-scale', inp, *_brief({'result': expect}, got), closed_form=True, explained_by_f7=False)
+        if n <= 129 and model is not None:
+            req_at.append(([name, n], impl))
+            reqs.append({'op': 'exec', 'script': progen.canon_script(model), 'globals': [], 'max': scale_limit(n), 'fuel': 40 * scale_limit(n)})
+            req_at.append(([name, n], impl))
+            reqs.append({'op': 'execT', 'prog': prog, 'globals': [], 'max': scale_limit(n), 'fuel': 40 * scale_limit(n)})
+    for (case, impl), resp in zip(req_at, ctx.driver.batch(reqs)):
+        ctx.compare('scale', case, *_brief(impl, progen.canon_model_out(resp)))
+
+
+def scale_case(name, n, seed):
+    """-> (structured program, closed-form result or None, source text) of family `name` at size n; deterministic in (name, n, seed)"""
+    build = next(b for f, b, _ in SCALE_FAMILIES if f == name)
+    prog, expect = build(n, fw.rng_for(seed, 'C01', 'scale', name, n))
+    prog = progen.assign_fids(prog)
+    lines = progen.render(prog)
+    return prog, expect, '\n'.join(lines if n <= 129 else [ln.strip() for ln in lines])
+
+
+def _brief(want, got):
+    """Two outcomes cut down to the members in which they differ, long values shortened (the programs of the scale stream leave
+    arrays of a thousand elements behind)."""
+    def cut(v):
+        text = json.dumps(v, sort_keys=True, default=str)
+        return v if len(text) <= 1200 else text[:1200] + ' ...'
+    keys = [k for k in sorted(set(want) | set(got)) if want.get(k) != got.get(k)]
+    return {k: cut(want[k]) for k in keys if k in want}, {k: cut(got[k]) for k in keys if k in got}
+
+
 def disagreement_known(d, known):
     return False
 
@@ -1615,7 +2176,7 @@ def search(ctx):
     rng = ctx.rng('search')
     for turn in range(ctx.scale(2500, 20000)):
         # grammar-directed programs and call-heavy programs (per-call frames, re-entered loops, keyword-named variables) in turn
-        gen = progen.Gen(rng, max_depth=rng.choice([3, 4, 5, 6])) if turn % 2 == 0 else CallGen(rng)
+        gen = Gen2(rng, max_depth=rng.choice([3, 4, 5, 6])) if turn % 2 == 0 else CallGen(rng)
         prog = gen.program()
         g = keyword_globals(progen.random_globals(rng), rng)
         text = '\n'.join(progen.render(prog))
@@ -1625,7 +2186,14 @@ def search(ctx):
             ctx.witness('generated-program-parses', {'text': text, 'globals': g}, 'a model', f'{type(exc).__name__}: {exc}')
             return
         impl = progen.run_impl(model, g, max_statements=600)
-        if 'error' in impl or 'hostexc' in impl:
+        if 'hostexc' in impl or impl.get('error', '').startswith(('Exceeded maximum', 'ParserError')):
+            continue
+        if 'error' in impl:
+            # a run that ends with a runtime error: log and globals up to the failing call are the reading's
+            ref = run_ref(prog, g, budget=3000)
+            if ref is not None and ref != progen.strip_hidden(impl) and not progen.has_while_continue(prog):
+                ctx.witness('structured-reading-failing-run', _w_input(text, g, prog), ref, progen.strip_hidden(impl), explained_by_f7=False)
+                return
             continue
         ref = run_ref(prog, g) if turn % 2 else progen.run_reference(prog, g)
         if ref is not None and ref != progen.strip_hidden(impl):
@@ -1668,6 +2236,21 @@ def replay(witness):
         model = parser.parse_script(inp['text'])
         return outcomes_differ(run_on({'maxStatements': 400, 'logFn': log.append, 'debug': False, 'statementCount': 10 ** 6}, log, model),
                                progen.run_impl(model, {}, max_statements=400))
+    if oracle == 'generated-program-parses':
+        try:
+            parser.parse_script(inp['text'])
+        except Exception:  # pylint: disable=broad-except
+            return True
+        return False
+    if oracle == 'session-reading':
+        return progen.strip_hidden(run_session(inp['session'], parser)[witness['step']]) != witness['expected']
+    if oracle == 'structured-reading-scale':
+        _, expect, text = scale_case(inp['family'], inp['n'], inp['seed'])
+        try:
+            got = big_stack(lambda: progen.strip_hidden(progen.run_impl(parser.parse_script(text), {}, max_statements=inp['max'])))
+        except parser.BareScriptParserError:
+            return True
+        return got.get('result') != expect if witness.get('closed_form') else _digest(got) != witness['expected_digest']
     if oracle == 'structured-reading-host':
         return progen.strip_hidden(run_with_host(parser.parse_script(inp['text']), inp['globals'], inp['wrap_seed'])) != witness['expected']
     model = parser.parse_script(inp['text'])
